@@ -176,6 +176,17 @@ def run_program(prog, extra_formatters=None, reporters=None, config_hook=None, w
                 context.abort()
             if kind in ("cleanupok", "cleanupraise"):
                 context.add_cleanup(mk_cleanup(n, kind == "cleanupraise"))
+        if cfg.get("async_steps") and kind not in ("kbd", "abort"):
+            # the same behaviour as an async step function (coroutine run by behave's async_run_until_complete)
+            from behave.api.async_step import async_run_until_complete
+            sync_impl = impl
+
+            @async_run_until_complete
+            async def async_impl(context, n, noise_text=None):
+                import asyncio
+                await asyncio.sleep(0)
+                return sync_impl(context, n, noise_text)
+            return async_impl
         return impl
     for kind in KINDS:
         if kind != "undefined":
